@@ -1472,9 +1472,12 @@ class FnTranslator:
         # record is the order of their first occurrence in the body (source order), so that neither a
         # renaming nor a reordering of the initialisations before the loop changes the generated text
         occ = {}
-        for nd in sorted((nd for st_ in s.body for nd in ast.walk(st_) if isinstance(nd, ast.Name)),
-                         key=lambda nd: (nd.lineno, nd.col_offset)):
-            occ.setdefault(nd.id, len(occ))
+        for nd in sorted((nd for st_ in s.body for nd in ast.walk(st_) if isinstance(nd, (ast.Name, ast.Attribute, ast.Subscript))),
+                         key=lambda nd: (nd.lineno, nd.col_offset, 0 if isinstance(nd, ast.Name) else 1)):
+            if isinstance(nd, ast.Name):
+                occ.setdefault(nd.id, len(occ))
+            elif attr_key(nd) and "." in attr_key(nd):
+                occ.setdefault(attr_var(attr_key(nd)), len(occ))
         carried = sorted([(v, env[v]) for v in env if v in body_assigned], key=lambda vt: occ[vt[0]])
         for v, t in carried:
             if t == "obj":
@@ -1922,6 +1925,79 @@ def guard_function(node, fspec, qual):
     return fn, sp
 
 
+def body_function(node, fspec, qual):
+    """Body mode (for methods that update a list of objects one by one): the body of ONE designated `for` loop
+    (`"loop": "for particle in population"` = the text `for <target> in <iter>`, which must occur exactly once, or
+    `"occurrence": [k, n]`) is translated as a function of its loop variable - an object of the record type
+    `"element"` - of the declared attributes of the other `"objects"` and of the declared `"locals"`; its result is
+    the final values of the attributes of the loop variable listed under `writes` (in-out when the record declares
+    them).  `continue` at the top level of the body ends it; `return` / `break` out of the designated loop are
+    rejected.  With `"sole": true` the loop must be the whole body of the method (after the docstring; a bare
+    trailing `return` is allowed).  NOT translated: what the loop iterates over (only its text is pinned), the code
+    around the loop, and whether two elements share the written objects."""
+    header = fspec["loop"]
+    found = []
+
+    def walk(stmts):
+        for st in stmts:
+            if isinstance(st, (ast.FunctionDef, ast.AsyncFunctionDef, ast.ClassDef)):
+                continue
+            if isinstance(st, ast.For) and "for %s in %s" % (ast.unparse(st.target), ast.unparse(st.iter)) == header:
+                found.append(st)
+            for fld in ("body", "orelse", "finalbody"):
+                walk(getattr(st, fld, []) or [])
+            for h in getattr(st, "handlers", []) or []:
+                walk(h.body)
+    walk(node.body)
+    occ = fspec.get("occurrence")
+    k, total = occ if occ else (0, 1)
+    if len(found) != total:
+        raise Unsupported("body mode: the loop `%s` occurs %d times in the function (%d expected)" % (header, len(found), total), node, qual)
+    loop = found[k]
+    if loop.orelse or not isinstance(loop.target, ast.Name):
+        raise Unsupported("body mode: the loop `%s` has an else branch / a target that is not a name" % header, loop, qual)
+    if fspec.get("sole"):
+        rest = [st for st in node.body if not (isinstance(st, ast.Expr) and isinstance(st.value, ast.Constant)
+                                                and isinstance(st.value.value, str))]
+        if rest and isinstance(rest[-1], ast.Return) and rest[-1].value is None:
+            rest = rest[:-1]
+        if rest != [loop]:
+            raise Unsupported("body mode: the loop `%s` is not the whole body of the function (spec: sole)" % header, node, qual)
+
+    class Tr(ast.NodeTransformer):
+        def visit_For(self, n):
+            if has_node(n.body + n.orelse, (ast.Return,)):
+                raise Unsupported("body mode: return inside the designated loop", n, qual)
+            return n                          # continue / break of an inner loop stay as they are
+
+        visit_While = visit_For
+
+        def visit_Continue(self, n):
+            return ast.copy_location(ast.Return(value=None), n)
+
+        def visit_Break(self, n):
+            raise Unsupported("body mode: break out of the designated loop", n, qual)
+
+        def visit_Return(self, n):
+            raise Unsupported("body mode: return inside the designated loop", n, qual)
+    import copy
+    body = [Tr().visit(copy.deepcopy(st)) for st in loop.body]
+    names = list(fspec.get("objects", [])) + [loop.target.id] + list(fspec.get("locals", {}))
+    fn = ast.FunctionDef(name=node.name, args=ast.arguments(posonlyargs=[], args=[ast.arg(arg=a) for a in names], vararg=None,
+                                                            kwonlyargs=[], kw_defaults=[], kwarg=None, defaults=[]),
+                         body=body, decorator_list=[], returns=None, type_comment=None)
+    ast.copy_location(fn, loop)
+    for n in ast.walk(fn):
+        if not hasattr(n, "lineno"):
+            ast.copy_location(n, loop)
+    sp = dict(fspec)
+    sp["returns"] = "writes"
+    if "element" not in fspec:
+        raise Unsupported("body mode: the spec does not give the record type of the loop variable (element)", node, qual)
+    sp["params"] = dict({o: "obj" for o in fspec.get("objects", [])}, **{loop.target.id: fspec["element"]}, **fspec.get("locals", {}))
+    return fn, sp
+
+
 def function_infos(repo, spec):
     """[{"function", "sha1", "source"}] of the functions named by the spec, without translating them."""
     path = os.path.join(repo, spec["source"])
@@ -1977,6 +2053,11 @@ def translate_spec(repo, spec):
             ft = FnTranslator(spec["module"], None, name, gspec, gnode, done)
             ft.qual = key
             what = "guard of `%s` in %s" % (fspec["target"], qual)
+        elif fspec.get("mode") == "body":
+            gnode, gspec = body_function(node, fspec, qual)
+            ft = FnTranslator(spec["module"], None, name, gspec, gnode, done)
+            ft.qual = key
+            what = "body of the loop `%s` in %s%s" % (fspec["loop"], qual, " (the whole method)" if fspec.get("sole") else "")
         else:
             ft = FnTranslator(spec["module"], cls or None, name, fspec, node, done)
             what = "%s.%s" % (cls or "<module>", name)
